@@ -87,9 +87,33 @@ def setup_sandbox_home():
     return home
 
 
+def stable(o):
+    """a deterministic string for any nested Python value (used as a distinctness key)"""
+    if isinstance(o, dict):
+        return "{" + ",".join(stable(k) + ":" + stable(v) for k, v in o.items()) + "}"
+    if isinstance(o, (list, tuple)):
+        return "[" + ",".join(stable(x) for x in o) + "]"
+    if o is None or isinstance(o, (bool, int, float, str, bytes)):
+        return repr(o)
+    return "<" + type(o).__name__ + ">"
+
+
 def jdefault(o):
     if isinstance(o, bytes):
         return {"bytes": o.hex()}
     if isinstance(o, (set, frozenset)):
         return sorted(map(str, o))
     return repr(o)
+
+
+def jsonable(o):
+    """make any nested value JSON-serialisable (dict keys of arbitrary types become strings)"""
+    if isinstance(o, dict):
+        return {(k if isinstance(k, str) else stable(k)): jsonable(v) for k, v in o.items()}
+    if isinstance(o, (list, tuple)):
+        return [jsonable(x) for x in o]
+    if isinstance(o, float) and (o != o or o in (float("inf"), float("-inf"))):
+        return repr(o)
+    if o is None or isinstance(o, (bool, int, float, str)):
+        return o
+    return jdefault(o)
